@@ -325,11 +325,6 @@ theorem cold_step (F : Ctl) (hF : ColdHyp F) (e : Ev) (r : List Ev) (ks : List S
         have : q = p := hF.keys q hq p hpF hk
         rw [this] at hn
         exact hn (by simp))
-      (by
-        intro _ ip' ⟨q, hq, hn, hk, _, _⟩
-        have : q = p := hF.keys q hq p hpF hk
-        rw [this] at hn
-        exact absurd (by simp) hn)
     have hpcr : PCOK (podEvent c none p .add).1.byIP (podEvent c none p .add).1.ipBy
         (fun ip key => ∃ q ∈ F.pods, Ev.podAdd q ∉ r ∧ q.key = key ∧ q.ip = ip ∧ podOK q = true) := by
       apply hpc'.congr
